@@ -174,6 +174,28 @@ Proof.
   - rewrite nth_all_false in H. discriminate.
 Qed.
 
+(* no finite weight at all: nothing is kept (the comparisons against NaN are all False), and conversely
+   with a finite weight and uniforms in [0, 1) the result is never empty *)
+Lemma positions_from_all_false {A} k (l : list A) : positions_from k (map (fun _ => false) l) = [].
+Proof. revert k; induction l as [|a r IH]; intros k; [reflexivity|]. cbn. apply IH. Qed.
+
+Theorem rejection_none lw us : xmaxo lw = None -> rejection lw us = [].
+Proof.
+  intros H. unfold rejection, rej_keeps. rewrite H. unfold positions. apply positions_from_all_false.
+Qed.
+
+Theorem rejection_nonempty lw us :
+  has_finite lw -> length us = length lw -> Forall (fun u => 0 <= u < 1) us -> rejection lw us <> [].
+Proof.
+  intros Hf Hl Hu. destruct (xmaxo_finite lw Hf) as [M HM].
+  pose proof (xmaxo_attained lw M HM) as Hin.
+  destruct (In_nth lw (Some M) None Hin) as [i [Hi Hnth]].
+  assert (Hui : 0 <= nth i us 0 < 1).
+  { rewrite Forall_forall in Hu. apply Hu. apply nth_In. rewrite Hl. exact Hi. }
+  pose proof (max_always lw us M i HM Hl Hi Hnth Hui) as Hk.
+  intros E. rewrite E in Hk. exact Hk.
+Qed.
+
 Theorem ratio_le_1 lw M x : xmaxo lw = Some M -> In (Some x) lw -> 0 < exp x / exp M <= 1.
 Proof.
   intros HM Hx. generalize (xmaxo_ge lw M HM x Hx) (exp_pos x) (exp_pos M). intros Hle Hx0 HM0. split.
